@@ -3,8 +3,11 @@ the scratch copy, mechanically rewritten (de-async, HashMap alias) and re-rooted
 shims of /verif/shims."""
 from __future__ import annotations
 
+import hashlib
+import json
 import re
 import shutil
+import subprocess
 from pathlib import Path
 
 from . import core
@@ -59,21 +62,187 @@ def rewrite_tree(src_dir: Path, map_path: str = "crate::verif_map") -> dict:
 
 
 def prepare_session(sc: Scratch, harness_mods: list[tuple[str, str, str]]) -> dict:
-    """harness_mods: (file relative to the crate's src, module name, absolute path of the harness)."""
-    src = sc.repo / SESSION_REL
+    """harness_mods: (file relative to the crate's src, module name, absolute path of the harness).
+
+    The encoding lives in <scratch>/enc_session/src (a rewritten copy of the real sources);
+    <scratch>/repo stays pristine so that counterexamples can be replayed against the real crates."""
+    src = sc.root / "enc_session" / "src"
+    if src.parent.exists():
+        shutil.rmtree(src.parent)
+    shutil.copytree(sc.repo / SESSION_REL, src)
     totals = rewrite_tree(src)
     shutil.copy(VERIF / "shims" / "verif_map.rs", src / "verif_map.rs")
     lib = src / "lib.rs"
     lib.write_text(lib.read_text() + "\n#[doc(hidden)]\npub mod verif_map;\n")
+    hdir = sc.root / "harness"
+    hdir.mkdir(exist_ok=True)
+    harness_copies = {}
     for rel, modname, hpath in harness_mods:
+        hcopy = hdir / Path(hpath).name
+        shutil.copy(hpath, hcopy)
+        harness_copies[modname] = hcopy
         f = src / rel
-        f.write_text(f.read_text() + f'\n#[cfg(kani)]\n#[path = "{hpath}"]\nmod {modname};\n')
+        f.write_text(f.read_text() + f'\n#[cfg(kani)]\n#[path = "{hcopy}"]\nmod {modname};\n')
     pkg = sc.root / "h_session"
     pkg.mkdir(parents=True, exist_ok=True)
     toml = (VERIF / "harness" / "session" / "Cargo.toml.in").read_text()
     toml = toml.replace("@SRC@", str(src)).replace("@SHIMS@", str(VERIF / "shims"))
     (pkg / "Cargo.toml").write_text(toml)
-    return {"pkg_dir": pkg, "rewrites": {"pavex_session": totals, "px_workspace_hack": "hakari section emptied"}}
+    return {"pkg_dir": pkg, "harness_copies": harness_copies,
+            "rewrites": {"pavex_session": totals, "px_workspace_hack": "hakari section emptied"}}
+
+
+# ---------------------------------------------------------------------------------------------
+# native replay of a counterexample against the real crates
+# ---------------------------------------------------------------------------------------------
+
+def build_native_replayer(sc: Scratch, log_path: Path) -> Path | None:
+    d = sc.root / "session_native"
+    if d.exists():
+        shutil.rmtree(d)
+    d.mkdir(parents=True)
+    src = VERIF / "replays" / "session_native"
+    (d / "Cargo.toml").write_text((src / "Cargo.toml.in").read_text().replace("@REPO@", str(sc.repo)))
+    shutil.copy(src / "Cargo.lock", d / "Cargo.lock")
+    shutil.copytree(src / "src", d / "src")
+    tgt = CACHE / "target-native"
+    env = core.env_offline()
+    env["CARGO_TARGET_DIR"] = str(tgt)
+    p = subprocess.run(["cargo", "build", "--offline"], cwd=d, env=env, stdout=subprocess.PIPE, stderr=subprocess.STDOUT, text=True)
+    log_path.parent.mkdir(parents=True, exist_ok=True)
+    log_path.write_text(p.stdout)
+    exe = tgt / "debug" / "session_native"
+    return exe if p.returncode == 0 and exe.exists() else None
+
+
+def run_native_script(exe: Path, script: Path) -> tuple[bool | None, str]:
+    p = subprocess.run([str(exe), str(script)], stdout=subprocess.PIPE, stderr=subprocess.STDOUT, text=True)
+    out = p.stdout.strip().splitlines()
+    last = out[-1] if out else ""
+    if p.returncode == 1:
+        return True, last
+    if p.returncode == 0:
+        return False, last
+    return None, last
+
+
+def _val(v):
+    return None if v == "nil" else v
+
+
+def _set_map_ops(prefix: str, m: list) -> list:
+    """ops that leave exactly `m` (over keys a,b) in a map that is flagged as modified"""
+    ops = [[f"{prefix}_insert", "a", None]]
+    for k, v in zip(("a", "b"), m):
+        ops.append([f"{prefix}_remove", k] if v is None else [f"{prefix}_insert", k, _val(v)])
+    return ops
+
+
+def script_from_trace(world: dict, ops: list[dict]) -> dict:
+    """Turn the conjured pre-state of a step harness into a public-API script that reaches it
+    (canonical prefix), followed by the operation(s) and a read-everything next request."""
+    idk, ssk = world["idk"], world["ssk"]          # 0 Existing 1 ToBeRenamed 2 New ; 0 NotLoaded 1 Unchanged 2 DoesNotExist 3 Marked 4 Changed
+    known = idk != 2
+    allow = world["allow"]
+    cfg = {"missing": "allow" if allow else "reject",
+           "creation": "never_skip" if world["never_skip"] else "skip_if_empty",
+           "extend_ttl": "on_state_loads_and_changes" if world["extend_on_loads"] else "on_state_changes",
+           "threshold": 0.8 if world["threshold"] else None}
+    as_map = lambda m: {k: _val(v) for k, v in zip(("a", "b"), m) if v is not None}
+    store = []
+    if known and world["rec_o"]:
+        store.append({"label": "O", "state": as_map(world["rec_o"]["state"])})
+    if world["rec_x"]:
+        store.append({"label": "X", "state": as_map(world["rec_x"]["state"])})
+    pre = []
+    cookie = None
+    if known:
+        cookie = {"label": "O", "client": {} if world["client_updated"] else as_map(world["cmap"])}
+    if world["client_updated"]:
+        pre += _set_map_ops("client", world["cmap"])
+    rec_present = bool(world["rec_o"]) and known
+    if ssk == 1:
+        pre.append(["force_load"])
+    elif ssk == 2 and known:
+        pre += [["force_load"]] if allow else [["delete"], ["sync"]]
+    elif ssk == 3:
+        pre.append(["invalidate"] if world["invalidated"] else ["delete"])
+    elif ssk == 4:
+        if known and not rec_present and not allow:
+            pre += [["delete"], ["sync"]]
+        pre += _set_map_ops("server", world["smap"])
+    if idk == 1:
+        pre.append(["cycle_id"])
+    body = []
+    for o in ops:
+        name = o["op"]
+        if name in ("finalize",):
+            continue
+        if name in ("client_is_empty",):
+            continue
+        e = [name, o.get("key", "a")]
+        if name.endswith("_insert"):
+            e.append(_val(o.get("value")))
+        body.append(e)
+    reads = [["server_get", "a"], ["server_get", "b"], ["client_get", "a"], ["client_get", "b"]]
+    return {"config": cfg, "store": store,
+            "requests": [{"cookie": cookie, "ops": pre + body}, {"cookie": "previous", "ops": reads}],
+            "_origin": {"world": world, "ops": ops}}
+
+
+def confirm_session(pid: str, sc: Scratch, prep: dict, r, log_dir: Path, modname: str) -> dict:
+    """Replay a Kani counterexample: (1) natively in the shim build to read the symbolic choices
+    back (VTRACE lines), (2) as a public-API script against the real, unshimmed crates."""
+    role = f"{r.spec.name}: " + "; ".join(sorted({c["description"] for c in r.failed}))
+    r2 = core.run_kani(prep["pkg_dir"], prep["target_dir"], r.spec, log_dir, prep.get("kani_args"), playback="print")
+    text = Path(r2.log_path).read_text(errors="replace")
+    tests = re.findall(r"Concrete playback unit test for `[^`]+`:\n```\n(.*?)```", text, re.S)
+    tests = [t for t in tests if "Check for `cover`" not in t] or tests
+    if not tests:
+        return {"reproduced": None, "role": role, "detail": "Kani produced no concrete playback test"}
+    test = tests[0]
+    hcopy = prep["harness_copies"][modname]
+    hcopy.write_text(hcopy.read_text() + "\n" + test + "\n")
+    m = re.search(r"fn (kani_concrete_playback_\w+)", test)
+    name = m.group(1)
+    p = subprocess.run(["cargo", "kani", "playback", "-Z", "concrete-playback", "--", name, "--nocapture"],
+                       cwd=prep["pkg_dir"], env=core.env_offline(), stdout=subprocess.PIPE, stderr=subprocess.STDOUT, text=True)
+    (log_dir / f"{r.spec.name}.shim-playback.log").write_text(p.stdout)
+    lines = [json.loads(l.split("VTRACE ", 1)[1]) for l in p.stdout.splitlines() if "VTRACE " in l]
+    worlds = [l for l in lines if l.get("kind") == "world"]
+    ops = [l for l in lines if l.get("kind") == "op"]
+    shim_fails = bool(re.search(r"test result: FAILED|panicked at", p.stdout))
+    if not worlds:
+        return {"reproduced": None, "role": role, "detail": "shim playback produced no trace (see log)"}
+    script = script_from_trace(worlds[0], ops)
+    script["_origin"]["harness"] = r.spec.name
+    script["_origin"]["failed"] = role
+    script["_origin"]["shim_playback_fails"] = shim_fails
+    h = hashlib.sha256(json.dumps(script, sort_keys=True).encode()).hexdigest()[:12]
+    rep_dir = VERIF / "replays" / "generated" / pid
+    rep_dir.mkdir(parents=True, exist_ok=True)
+    rep = rep_dir / f"{r.spec.name}-{h}.json"
+    rep.write_text(json.dumps(script, indent=1) + "\n")
+    exe = build_native_replayer(sc, log_dir / "native-build.log")
+    if exe is None:
+        return {"reproduced": None, "replay": str(rep), "role": role, "detail": "native replayer did not build against the real crates"}
+    ok, detail = run_native_script(exe, rep)
+    op_sig = " ".join(o["op"] for o in ops)
+    return {"reproduced": ok, "replay": str(rep), "role": f"{r.spec.name}|{op_sig}", "detail": detail + ("" if shim_fails else " [note: shim playback passed natively]")}
+
+
+def replay_script(pid: str, path: Path) -> int:
+    with Scratch(pid + "-replay") as sc:
+        exe = build_native_replayer(sc, CACHE / "logs" / pid / "native-build.log")
+        if exe is None:
+            core.log("native replayer did not build")
+            return 2
+        ok, detail = run_native_script(exe, path)
+    core.log(f"replay {path}: {detail}")
+    if ok is True:
+        print(f"VIOLATION property={pid} replay={path}", flush=True)
+        return 1
+    return 0 if ok is False else 2
 
 
 SESSION_SHIM_ASSUMPTIONS = [
